@@ -29,7 +29,7 @@ CMP = {"EQ": {"bin:Eq", "call:eq"}, "NE": {"bin:Ne", "call:ne"}, "LT": {"bin:Lt"
        "LTE": {"bin:Le", "call:le"}, "GTE": {"bin:Ge", "call:ge"}, "LZC": {"call:leading_zeros"}}
 MOP = {"ADD": {"call:overflowing_add"}, "SUB": {"call:overflowing_sub"}, "NOT": {"un:Not", "call:not"}, "OR": {"bin:BitOr", "call:bitor"},
        "XOR": {"bin:BitXor", "call:bitxor"}, "AND": {"bin:BitAnd", "call:bitand"}, "SHL": {"call:checked_shl"}, "SHR": {"call:checked_shr"}}
-NOISE = {"call:default", "call:try_into", "call:unwrap_or_default", "call:into", "call:from"}
+NOISE = {"call:default", "call:try_into", "call:try_from", "call:unwrap_or_default", "call:into", "call:from"}
 HANDLERS = {
     "WDCM": ("alu_wideint_cmp_u128", "CompareArgs", True), "WQCM": ("alu_wideint_cmp_u256", "CompareArgs", True),
     "WDOP": ("alu_wideint_op_u128", "MathArgs", False), "WQOP": ("alu_wideint_op_u256", "MathArgs", False),
@@ -197,7 +197,8 @@ def run(F, rep, tier, allfacts):
             first = "call:unpack(arg:self).0" if is_cmp else "call:index(arg:interpreter.registers,call:unpack(arg:self).0)"
             ok = a[1] == first and a[2] == "call:index(arg:interpreter.registers,call:unpack(arg:self).1)" and a[3] == "call:index(arg:interpreter.registers,call:unpack(arg:self).2)"
             if argty:
-                ok = ok and "from_imm(call:unpack(arg:self).3)" in a[4] and "InvalidImmediateValue" in a[4]
+                # the decoded immediate is passed on, and a failed decode raises InvalidImmediateValue (ok_or(..)? or let-else)
+                ok = ok and "from_imm(call:unpack(arg:self).3)" in a[4] and ("InvalidImmediateValue" in a[4] or bool(agg_blocks(f, r"PanicReason$", "InvalidImmediateValue")))
                 fi = [callee_name(c) for i, c, args, *_ in calls(f) if callee_matches(c, r"::from_imm$")]
                 ok = ok and len(fi) == 1 and ("wideint::" + argty + "::from_imm") in fi[0]
             else:
